@@ -53,6 +53,7 @@ type World struct {
 	curLoopKeys    map[string]bool // heap keys the loop whose head is being processed may write
 	splits         []Term
 	quantFacts     []quantFact
+	witnessTerms   []Term // constants naming the witnesses of assumed existentials (instantiation candidates)
 	loopFreshOnly  map[string]bool
 	loopPreserved  map[string]bool
 	loopFreshAlloc map[string]bool
@@ -779,6 +780,9 @@ func (w *World) noteQuantFacts(guard Term, env *CEnv, e *CExpr) {
 // the recorded quantified facts at those constants.
 func (w *World) skolemGoal(env *CEnv, e *CExpr) Term {
 	var sks []Term
+	var skCache []Term // the skolem constants, in creation order (the goal is walked twice)
+	skPos := 0
+	var extraWitnesses []Term
 	var walk func(env *CEnv, e *CExpr) Term
 	walk = func(env *CEnv, e *CExpr) Term {
 		switch {
@@ -850,10 +854,25 @@ func (w *World) skolemGoal(env *CEnv, e *CExpr) Term {
 					typ = w.resolveType(env, b.Type)
 					srt = w.sortOf(typ)
 				}
-				sk := w.sc.fresh("sk."+b.Name, srt)
+				var sk Term
+				if skPos < len(skCache) {
+					sk = skCache[skPos]
+				} else {
+					sk = w.sc.fresh("sk."+b.Name, srt)
+					skCache = append(skCache, sk)
+				}
+				skPos++
 				inner = inner.with(b.Name, &Val{T: sk, Typ: typ})
 				if srt == SInt {
-					sks = append(sks, sk)
+					dup := false
+					for _, x := range sks {
+						if x.S == sk.S {
+							dup = true
+						}
+					}
+					if !dup {
+						sks = append(sks, sk)
+					}
 				}
 			}
 			return walk(inner, e.Args[0])
@@ -861,7 +880,7 @@ func (w *World) skolemGoal(env *CEnv, e *CExpr) Term {
 			// a positive existential: offer the program's index terms as witnesses
 			// (G(t1) or ... or exists k. G(k) is equivalent to the original)
 			alts := []Term{w.evalBool(env, e)}
-			for _, t := range append(append([]Term{}, w.indexTerms...), sks...) {
+			for _, t := range append(append(append([]Term{}, w.indexTerms...), sks...), extraWitnesses...) {
 				func() {
 					defer func() {
 						if r := recover(); r != nil {
@@ -879,6 +898,7 @@ func (w *World) skolemGoal(env *CEnv, e *CExpr) Term {
 	}
 	goal := walk(env, e)
 	instMark := w.sc.mark()
+	witMark := len(w.witnessTerms)
 	// instantiate assumed quantified facts at the skolem constants (and at
 	// the images of unary integer specification functions)
 	var terms []Term
@@ -888,6 +908,11 @@ func (w *World) skolemGoal(env *CEnv, e *CExpr) Term {
 			if len(fn.Params) == 1 && fn.Params[0] == SInt && fn.Result == SInt && strings.HasPrefix(name, "rootPos") {
 				terms = append(terms, mk(SInt, sym(name), sk))
 			}
+		}
+	}
+	for _, t := range w.witnessTerms {
+		if len(w.witnessTerms) <= 6 || t.S == w.witnessTerms[len(w.witnessTerms)-1].S {
+			terms = append(terms, t)
 		}
 	}
 	// program index terms (i in s[i]) are instantiation candidates too
@@ -939,7 +964,7 @@ func (w *World) skolemGoal(env *CEnv, e *CExpr) Term {
 							}
 						}
 					}()
-					env2 := qf.env
+					env2 := qf.env.assuming()
 					for i, b := range qf.expr.Binders {
 						env2 = env2.with(b.Name, &Val{T: combo[i], Typ: types.Typ[types.Int]})
 					}
@@ -949,6 +974,44 @@ func (w *World) skolemGoal(env *CEnv, e *CExpr) Term {
 			}
 		}
 	}
+	// witnesses named while instantiating: instantiate the (single-binder) facts at them as well, then offer
+	// every recent witness to the positive existentials of the goal
+	recent := func() []Term {
+		// the witnesses named on the path (most recent four) and those named by the instances above (eight)
+		old, nw := w.witnessTerms[:witMark], w.witnessTerms[witMark:]
+		if len(old) > 4 {
+			old = old[len(old)-4:]
+		}
+		if len(nw) > 8 {
+			nw = nw[:8]
+		}
+		return append(append([]Term{}, old...), nw...)
+	}
+	if nw := w.witnessTerms[witMark:]; len(nw) > 0 || witMark > 0 {
+		cands := recent()
+		for _, qf := range w.quantFacts {
+			if len(qf.expr.Binders) != 1 || !isInt(qf.expr.Binders[0]) {
+				continue
+			}
+			for _, t := range cands {
+				func() {
+					defer func() {
+						if r := recover(); r != nil {
+							if _, ok := r.(unsupportedErr); !ok {
+								panic(r)
+							}
+						}
+					}()
+					env2 := qf.env.with(qf.expr.Binders[0].Name, &Val{T: t, Typ: types.Typ[types.Int]})
+					w.sc.assume(implies(qf.guard, w.evalBool(env2, qf.expr.Args[0])))
+				}()
+			}
+		}
+		extraWitnesses = cands
+		skPos = 0
+		goal = walk(env, e)
+	}
+	w.witnessTerms = w.witnessTerms[:witMark] // the ones named here are declared in this obligation's own text
 	w.pendingExtra = w.sc.cut(instMark)
 	return goal
 }
